@@ -59,6 +59,9 @@ P = {
  "C06": ("fault_enumeration", "IndexCrash.tla (per-file crash cut classes, required recovery) checked by TLC; classes expanded to byte-level truncations of the real index files of a sealed segment and reopened",
          "IndexCrash.tla enumerates the 252 joint classes (each of the three index files empty / cut in magic, counts, MPHF, bloom, records / complete) with the required outcome; each class is expanded to concrete truncation lengths on a real data directory with sealed segments, the image is reopened with DatabaseBuilder::open and every acknowledged event is looked up by id, stream scan and partition scan. The as-is behaviour (no rebuild) is recorded as two known findings keyed by failure kind and cut class; any other failure (e.g. with complete files, or a different failure kind) is reported.",
          "The sealed segment's data file is complete and fsynced. Known findings: reopen blocked for header-level cuts, lookups failing for record-level cuts.", "5/C06", "h-store"),
+ "C26": ("model_checking", "Breaker.tla (atomic-operation grain, free clock) model-checked by TLC; its interleavings replayed step by step on real threads parked at hook points in front of every atomic operation of WriteCircuitBreaker",
+         "TLC explores every interleaving of 2 threads x 2 operations (thorough: 3 threads) of the breaker's atomic operations and clock readings with NoUnderflow, OpensOnlyAfterThreshold, ProbesBoundedUnlessLateReset; one behaviour per distinct final state plus random walks are replayed on the real WriteCircuitBreaker (dev profile): real threads are released one hook-to-hook step at a time in the schedule's order with the model's clock, the next hook reached and every return value must match, a panic is a violation. The residual probe-bound race (separate atomics) is a recorded finding whose schedule is replayed on every run.",
+         "Episode = from a successful Open->HalfOpen compare_exchange to the next one; recorded finding c26:probes:late-reset.", "5/C26", "h-cluster"),
 }
 
 NOT_YET = "not yet built in this session (planned: see DESIGN.md section 5); no claim is made"
@@ -70,6 +73,8 @@ ENGINES = [
   "kind_free_text": "Rust harness linked against /repo/crates/seglog: SegLog.tla behaviour replay on Writer/Reader, SegFault.tla class expansion to concrete corruptions"},
  {"name": "h-store", "path": "harness/h-store", "serves_properties": ["C01", "C02", "C03", "C04", "C05", "C06", "C15", "C16", "C19", "C20"],
   "kind_free_text": "Rust harness linked against /repo/crates/sierradb: EventStore/Durability behaviour replay on a real Database, read oracle, crash-image enumeration, schedule control through cfg-gated hooks"},
+ {"name": "h-cluster", "path": "harness/h-cluster", "serves_properties": ["C07", "C08", "C09", "C10", "C11", "C12", "C26"],
+  "kind_free_text": "Rust harness linked against /repo/crates/sierradb-cluster: schedule replay on the circuit breaker, confirmation/watermark replay, replicator replay, read gating, subscriptions, virtual cluster"},
  {"name": "tlc", "path": "spec", "serves_properties": sorted(P.keys()),
   "kind_free_text": "TLA+ specifications checked with TLC 1.8 (exhaustive + simulation), behaviours/tables exported as JSON"},
 ]
